@@ -425,6 +425,67 @@ fn main() {
                     None => fail("anchor-lost", format!("{}: call #{} of `{}` arg {} in fn {:?}", name, nth, call, arg, s(item, "ident"))),
                 }
             }
+            "statics" => {
+                // syntactic side condition: the `static` items and thread_local!/lazy_static! invocations of the
+                // file (after cfg evaluation; nested modules and fn bodies included) and its out-of-line `mod x;`
+                struct St { statics: Vec<String>, mods: Vec<String> }
+                impl<'ast> Visit<'ast> for St {
+                    fn visit_item_static(&mut self, i: &'ast ItemStatic) {
+                        let m = if matches!(i.mutability, StaticMutability::Mut(_)) { "mut " } else { "" };
+                        self.statics.push(format!("static {}{}: {}", m, i.ident, norm(&*i.ty)));
+                    }
+                    fn visit_macro(&mut self, m: &'ast Macro) {
+                        let last = m.path.segments.last().map(|x| x.ident.to_string()).unwrap_or_default();
+                        if last == "thread_local" || last == "lazy_static" {
+                            self.statics.push(format!("{}! {{ {} }}", last, m.tokens.to_string().chars().take(4000).collect::<String>()));
+                        }
+                        syn::visit::visit_macro(self, m);
+                    }
+                    fn visit_item_mod(&mut self, m: &'ast ItemMod) {
+                        if m.content.is_none() {
+                            self.mods.push(m.ident.to_string());
+                        }
+                        syn::visit::visit_item_mod(self, m);
+                    }
+                }
+                let mut st = St { statics: vec![], mods: vec![] };
+                st.visit_file(&file);
+                let v = serde_json::json!({ "statics": st.statics, "mods": st.mods });
+                (v.to_string(), (1usize, src.lines().count()))
+            }
+            "binders" => {
+                // syntactic side condition: how often the fn body (re)binds the identifier `binder` (let / closure
+                // parameter / match arm patterns), and whether the fn parameter of that name is declared `mut`
+                let (fsig, block, _attrs, span, _shell) = match find_fn(&file, item) {
+                    Some(x) => x,
+                    None => fail("anchor-lost", format!("{}: fn {:?} in {}", name, s(item, "ident"), file_rel)),
+                };
+                let b = s(item, "binder").expect("binder");
+                struct Bd<'a> { b: &'a str, n: usize, assigns: usize }
+                impl<'a, 'ast> Visit<'ast> for Bd<'a> {
+                    fn visit_pat_ident(&mut self, p: &'ast PatIdent) {
+                        if p.ident == self.b { self.n += 1; }
+                        syn::visit::visit_pat_ident(self, p);
+                    }
+                    fn visit_expr_assign(&mut self, a: &'ast ExprAssign) {
+                        if let Expr::Path(p) = &*a.left { if p.path.is_ident(self.b) { self.assigns += 1; } }
+                        syn::visit::visit_expr_assign(self, a);
+                    }
+                }
+                let mut bd = Bd { b: &b, n: 0, assigns: 0 };
+                bd.visit_block(&block);
+                let mut param = false;
+                let mut param_mut = false;
+                for a in fsig.inputs.iter() {
+                    if let FnArg::Typed(t) = a {
+                        if let Pat::Ident(pi) = &*t.pat {
+                            if pi.ident == b { param = true; param_mut = pi.mutability.is_some(); }
+                        }
+                    }
+                }
+                let v = serde_json::json!({ "param": param, "param_mut": param_mut, "rebinds": bd.n, "assigns": bd.assigns });
+                (v.to_string(), span)
+            }
             "closure" => {
                 let (fsig, block, _attrs, _span, _shell) = match find_fn(&file, item) {
                     Some(x) => x,
